@@ -447,3 +447,10 @@ func envelopes(run *ev.Run) {
 	sendRaw("request-entities", "PUT", "/things?ids=List(k1)", "batch_update", `{"zz":1,"entities":{"k1":{"n":1}}}`)
 	sendRaw("request-elements", "POST", "/things", "batch_create", `{"elements":[{"n":1}],"zz":[1]}`)
 }
+
+func trunc(s string) string {
+	if len(s) > 300 {
+		return s[:300] + fmt.Sprintf("...(%d bytes)", len(s))
+	}
+	return s
+}
